@@ -9,7 +9,7 @@ PROPERTY = 'C06'
 RULE = ('cases = one call of mixed_rank_graph (or compute_batch_ranking) on a frame with k columns: exhaustive k<=5 (quick) / k<=6 '
         '(thorough) x every label position x {target-only, pairwise} x {scoring, 3mr, Constant} x every cap in 1..|list|+1; random '
         'k in 1..40 with hostile column names (spaces, unicode, names containing " AND ", names equal up to case, relation columns '
-        '"a AND_REL b", base features together with their own " AND " interaction names), label anywhere and under other names, caps {1, 2, |set|-1, |set|, |set|+k, 10^6}. The sampler is wrapped to '
+        '"a AND_REL b", base features together with their own " AND " interaction names), label anywhere and under other names, caps {1, 2, |set|-1, |set|, |set|+k, 10^6}; reference-model (prior) heuristics with a reference JSON; 150-column frames (> 10^4 candidate pairs) with caps above 10^4 for 3MR and non-3MR heuristics. The sampler is wrapped to '
         'record the candidate list offered and the pool records the tasks actually evaluated. distinct = (k, label position, mode, '
         'heuristic class, cap regime, names hash); non-trivial = at least 2 columns.')
 REQUIRED = {'both-orientations': 100, 'requested-set': 100, 'cap-before-evaluation': 50, 'names-in-frame': 100, 'constant-once': 20}
@@ -31,6 +31,7 @@ def plan(tier, seed):
     r = 5 if tier == 'quick' else 12
     for i in range(r):
         shards.append({'name': 'random-%d' % i, 'fn': 'shard_random', 'args': {'part': i, 'parts': r}})
+    shards.append({'name': 'prior-and-large', 'fn': 'shard_prior_and_large', 'args': {}})
     return shards
 
 
@@ -103,11 +104,15 @@ class CountingPool(pipe.SyncPool):
         return super().amap(fn, items)
 
 
-def verify(sh, h, cols, label, target_only, heuristic, cap_arg, out, pool, via):
+def verify(sh, h, cols, label, target_only, heuristic, cap_arg, out, pool, via, exclude=()):
     is3mr = '3mr' in heuristic
     constant = heuristic == 'Constant'
     cap = min(cap_arg, 10 ** 4) if is3mr else cap_arg
     req, optional = requested_model(cols, label, target_only, is3mr)
+    if exclude:
+        # reference-model mode: pairs touching a reference feature are not candidates at all
+        req = {p for p in req if not (set(p) & set(exclude))}
+        optional = {p for p in optional if not (set(p) & set(exclude))}
     rows = list(out.triplet_scores)
     colset = set(cols)
     wit = lambda **kw: dict(kw, via=via, columns=cols, label=label, target_only=target_only, heuristic=heuristic, cap=cap_arg, n_rows=len(rows), rows_head=[[a, b, float(s)] for a, b, s in rows[:12]])  # noqa: E731
@@ -240,3 +245,51 @@ def shard_random(sh, part, parts):
         regime = 'cap<set' if cap < S else ('cap=set' if cap == S else 'cap>set')
         sh.case((k, cols.index(label), target_only, hclass, regime, core.h64(cols)), k >= 2, 'random/%s/%s/%s' % (hclass, 'target-only' if target_only else 'pairwise', regime),
                 sample={'columns': cols, 'label': label, 'heuristic': heuristic, 'cap': cap, 'via': via, 'n_rows': len(out.triplet_scores)} if t % 15 == 0 else None)
+
+
+def shard_prior_and_large(sh):
+    """(a) reference-model ("prior") heuristics: the cap applies to the candidates that remain after the reference features are
+    removed; (b) candidate lists above 10^4: only 3MR heuristics clip the cap to 10^4. Scores come from a stub scorer here -
+    this shard is about which pairs are evaluated, not about their values."""
+    import json
+    import os
+    h = Harness(sh)
+    cr = h.cr
+    rng, nprng = sh.rng('prior'), sh.nprng('prior')
+    real_scorer = cr.get_importances_estimate_pairwise
+    cr.get_importances_estimate_pairwise = lambda combination, ref, args, tmp_df: (combination[0], combination[1], 0.5)
+    try:
+        for t in range(30 if sh.tier == 'quick' else 120):
+            k = rng.randint(3, 9)
+            cols = ['c%d' % i for i in range(k - 1)]
+            cols.insert(rng.randrange(k), 'label')
+            feats = [c for c in cols if c != 'label']
+            ref = rng.sample(feats, rng.randint(1, max(1, len(feats) - 1)))
+            path = os.path.join(sh.scratch, 'ref-%d.json' % t)
+            with open(path, 'w') as f:
+                json.dump({'desc': {'features': ref, 'fields': []}}, f)
+            target_only = rng.random() < 0.5
+            heuristic = rng.choice(['surrogate-SGD', 'surrogate-SVM', 'surrogate-SGD-RP'])
+            req, _ = requested_model(cols, 'label', target_only, False)
+            req = {p for p in req if not (set(p) & set(ref))}
+            S = len(req)
+            cap = rng.choice([1, 2, max(1, S - 1), S, S + 2, 10 ** 6])
+            args = pipe.make_args(heuristic=heuristic, target_ranking_only=str(target_only), combination_number_upper_bound=cap, reference_model_JSON=path)
+            frame = make_frame(cols, 10, nprng)
+            ok, out, fcols, pool = h.run(frame, args)
+            if ok:
+                verify(sh, h, fcols, 'label', target_only, heuristic, cap, out, pool, 'mixed_rank_graph', exclude=ref)
+                sh.case(('prior', k, tuple(ref), target_only, cap), True, 'prior-heuristic/%s' % ('cap<set' if cap < S else 'cap>=set'),
+                        sample={'columns': cols, 'reference_features': ref, 'cap': cap, 'candidates_after_filter': S, 'rows': len(out.triplet_scores)} if t % 10 == 0 else None)
+        for t, (hclass, cap) in enumerate([('Constant', 10 ** 4 + 50), ('Constant', 2 ** 15), ('3mr', 10 ** 4 + 50), ('3mr', 10 ** 6), ('scoring', 10 ** 4 + 7)]):
+            k = 150
+            cols = ['c%d' % i for i in range(k - 1)] + ['label']
+            heuristic = {'Constant': 'Constant', '3mr': 'MI-numba-3mr', 'scoring': 'MI-numba-randomized'}[hclass]
+            frame = make_frame(cols, 4, nprng)
+            args = pipe.make_args(heuristic=heuristic, target_ranking_only='False', combination_number_upper_bound=cap)
+            ok, out, fcols, pool = h.run(frame, args)
+            if ok:
+                verify(sh, h, fcols, 'label', False, heuristic, cap, out, pool, 'mixed_rank_graph')
+                sh.case(('large', hclass, cap), True, 'more-than-10^4-candidates/' + hclass, sample={'columns': k, 'cap': cap, 'offered': len(h.offered[-1]), 'rows': len(out.triplet_scores)})
+    finally:
+        cr.get_importances_estimate_pairwise = real_scorer
